@@ -122,3 +122,175 @@ register(Unit('contexts.__init__', 'concepts/contexts.py', 'Data.__init__', _ini
                            'builtins: len, set (cardinality = length iff duplicate-free), isdisjoint, set equality lemma for the row-length set',
                            'Relation.__new__ establishes PairEnv for both Vectors objects under its stated requires (bitsets contracts; bounded)'],
               linkage=[('type(ctx).__init__', None)]))
+
+
+# =============================================================================================
+# Data.fromdict (C19, C11): acceptance iff well-formed, ValueError otherwise; cells bools[r][i] <-> i in context[r]
+
+def _fromdict_unit():
+    from z3 import ForAll, Ints, Or, If
+    from pyvc.engine import IterV, SeqV, NoneV, PyRaise, truthy
+
+    def make():
+        def harness(path):
+            B = BoolSort()
+            has = {k: Bool('has.' + k) for k in ('objects', 'properties', 'context', 'lattice')}
+            objs, props = NameSeq('objects', path), NameSeq('properties', path)
+            disjoint = Bool('names.disjoint')
+            path.ghost['disjoint'] = disjoint
+            isstr = {'objects': Function('isstr.objects', I, B), 'properties': Function('isstr.properties', I, B)}
+            nrows = Int('context.len')
+            path.assume(nrows >= 0)
+            row_nodup, row_inrange = Function('row.nodup', I, B), Function('row.inrange', I, B)
+            cell = Function('row.has', I, I, B)
+            t_, i_ = Ints('t i')
+            lat_nonempty = Bool('lattice.nonempty')
+            flags = {k: path.fresh_bool(k) for k in ('ignore_lattice', 'require_lattice', 'raw')}
+
+            # ---- the values of the dict
+            for ns, key in ((objs, 'objects'), (props, 'properties')):
+                def it(p, a, k, _ns=ns, _key=key):
+                    def at(t):
+                        o = ObjV('Item', {}, name='%s[%s]' % (_key, t))
+                        o.isinstance_fn = lambda names, _t=t: isstr[_key](_t) if 'str' in names else BoolVal(False)
+                        return o
+                    return IterV(at, _ns.len, 'iter(%s)' % _key)
+                ns.val.fields['__iter__'] = FuncV('iter', it)
+
+            def row(t):
+                r = ObjV('Row', {}, name='context[%s]' % t)
+                rlen, rcard = Function('row.len', I, I)(t), Function('row.card', I, I)(t)
+                path.assume(And(rcard >= 0, rcard <= rlen, (rcard == rlen) == row_nodup(t)))
+                r.fields['__len__'] = FuncV('len', lambda p, a, k: IntV(rlen))
+
+                def as_set(p, a, k):
+                    st = ObjV('RowSet', {}, name='set(context[%s])' % t)
+                    st.fields['__len__'] = FuncV('len', lambda p2, a2, k2: IntV(rcard))
+
+                    def issubset(p2, a2, k2):
+                        ok = getattr(a2[-1], 'is_index_set', False)
+                        p2.oblige('pre@issubset/against-the-column-indexes', 'pre@call', BoolVal(ok))
+                        return BoolV(row_inrange(t))
+                    f = FuncV('set.issubset', issubset)
+                    f.is_method = True
+                    st.fields['issubset'] = f
+                    c = FuncV('set.__contains__', lambda p2, a2, k2: BoolV(cell(t, a2[-1].t)))
+                    c.is_method = True
+                    st.fields['__contains__'] = c
+                    st.row = t
+                    return st
+                r.fields['__set__'] = FuncV('set', as_set)
+                return r
+            context = ObjV('Rows', {}, name='context')
+            context.fields['__len__'] = FuncV('len', lambda p, a, k: IntV(nrows))
+            context.fields['__iter__'] = FuncV('iter', lambda p, a, k: IterV(row, nrows, 'iter(context)'))
+            lattice = ObjV('LatticeList', {}, name='lattice')
+            lattice.truth_fn = lambda: lat_nonempty
+            values = {'objects': objs.val, 'properties': props.val, 'context': context, 'lattice': lattice}
+
+            d = ObjV('dict', {}, name='d')
+
+            def d_get(p, a, k, strict):
+                key = a[1].value
+                if p.branch(has[key]):
+                    return values[key]
+                if strict:
+                    raise PyRaise('KeyError')
+                return NONE
+            d.fields['__getitem__'] = FuncV('dict.__getitem__', lambda p, a, k: d_get(p, a, k, True))
+            g_ = FuncV('dict.get', lambda p, a, k: d_get(p, a, k, False))
+            g_.is_method = True
+            d.fields['get'] = g_
+            c_ = FuncV('dict.__contains__', lambda p, a, k: BoolV(has[a[-1].value]))
+            c_.is_method = True
+            d.fields['__contains__'] = c_
+
+            def set_(p, args, kw):
+                (v,) = args
+                if isinstance(v, SeqV):           # set(indexes): the set of column indexes 0..len(properties)-1
+                    o = ObjV('IndexSet', {}, name='set(indexes)')
+                    ok = isinstance(v, SeqV)
+                    tt = p.fresh_int('t')
+                    p.oblige('closed-form/indexes-are-0..m-1', 'post', And(v.length == props.len, v.at(tt).t == tt))
+                    o.is_index_set = True
+                    return o
+                if isinstance(v, ObjV) and '__set__' in v.fields:
+                    return v.fields['__set__'].fn(p, [v], {})
+                raise Unsupported('set of %r' % (v,))
+
+            created, fromlist_calls = [], []
+
+            def ctor(p, args, kw):
+                a = args[1:] if args and args[0] is cls else args
+                ok = len(a) == 3 and a[0] is objs.val and a[1] is props.val and isinstance(a[2], (IterV, SeqV))
+                p.oblige('pre@cls/arguments', 'pre@call', BoolVal(ok))
+                if not ok:
+                    raise Unsupported('constructor call shape')
+                rows = a[2]
+                p.oblige('pre@cls/one-row-per-context-row', 'pre@call', rows.length == nrows)
+                # the rows are produced lazily (map over _make_set): building the list evaluates every row; an invalid row raises
+                allok = ForAll([t_], Implies(And(0 <= t_, t_ < nrows), And(row_nodup(t_), row_inrange(t_))), patterns=[row_nodup(t_)])
+                if p.branch(allok):
+                    tt = p.fresh_int('t')
+                    p.assume(And(0 <= tt, tt < nrows))
+                    r = rows.at(tt)
+                    ii = p.fresh_int('i')
+                    okr = isinstance(r, (IterV, SeqV))
+                    # accepted input is represented faithfully: bools[r][i] <-> i in context[r], one cell per property
+                    p.oblige('cells/row-shape', 'post', And(r.length == props.len) if okr else BoolVal(False))
+                    if okr:
+                        p.oblige('cells/faithful', 'post', Implies(And(0 <= ii, ii < props.len), truthy(r.at(ii)) == cell(tt, ii)))
+                else:
+                    w = p.fresh_int('w')
+                    p.assume(And(0 <= w, w < nrows, Not(And(row_nodup(w), row_inrange(w)))))
+                    rows.at(w)         # must raise
+                    p.oblige('rows/invalid-row-raises', 'post', BoolVal(False))
+                # Context.__init__ (unit contexts.__init__) with rows of exactly len(properties) cells, one per context row
+                valid = And(objs.len >= 1, props.len >= 1, objs.nodup, props.nodup, disjoint, nrows == objs.len, nrows >= 1)
+                if not p.branch(valid):
+                    raise PyRaise('ValueError')
+                inst = ObjV('Context', {}, name='inst')
+                inst.fields['__dict__'] = ObjV('dict', {'__contains__': FuncV('contains', lambda p2, a2, k2: BoolV('lattice' in inst.fields and a2[-1].value == 'lattice'))})
+                inst.fields['__dict__'].fields['__contains__'].is_method = True
+                created.append(inst)
+                return inst
+            cls = ObjV('class', {'__call__': FuncV('Context', ctor)}, name='cls')
+            lattices = ObjV('module', {'Lattice': ObjV('class', {'_fromlist': FuncV(
+                'Lattice._fromlist', lambda p, a, k: fromlist_calls.append(list(a)) or ObjV('Lattice', {}, name='stored-lattice'))}, name='Lattice')}, name='lattices')
+            g = dict(lib.builtins(), set=FuncV('set', set_), lattices=lattices)
+            env = {'cls': cls, 'd': d, 'ignore_lattice': BoolV(flags['ignore_lattice']), 'require_lattice': BoolV(flags['require_lattice']),
+                   'raw': BoolV(flags['raw'])}
+            allstr = lambda key, ns: ForAll([t_], Implies(And(0 <= t_, t_ < ns.len), isstr[key](t_)), patterns=[isstr[key](t_)])
+            wellformed = And(has['objects'], has['properties'], has['context'], allstr('objects', objs), allstr('properties', props),
+                             nrows == objs.len, Implies(flags['require_lattice'], has['lattice']), Implies(has['lattice'], lat_nonempty),
+                             ForAll([t_], Implies(And(0 <= t_, t_ < nrows), And(row_nodup(t_), row_inrange(t_))), patterns=[row_nodup(t_)]),
+                             objs.len >= 1, props.len >= 1, objs.nodup, props.nodup, disjoint, nrows >= 1)
+
+            def finish(path, env_, outcome):
+                kind, val = outcome
+                if kind == 'raise':
+                    path.oblige('post/ill-formed-raises-ValueError', 'post', And(BoolVal(val == 'ValueError'), Not(wellformed)))
+                    return
+                path.oblige('post/accepted-iff-well-formed', 'post', wellformed)
+                ok = len(created) == 1 and val is created[0]
+                path.oblige('post/returns-the-new-context', 'post', BoolVal(ok))
+                want = And(Not(flags['ignore_lattice']), has['lattice'])
+                path.oblige('post/stored-lattice-attached-iff-present-and-not-ignored', 'post', want == BoolVal(len(fromlist_calls) == 1))
+                if len(fromlist_calls) == 1 and ok:
+                    a = fromlist_calls[0]
+                    path.oblige('post/_fromlist-arguments', 'post', BoolVal(a[-3] is val and a[-2] is lattice and isinstance(a[-1], BoolV))
+                                if len(a) >= 3 else BoolVal(False))
+                    if len(a) >= 3 and isinstance(a[-1], BoolV):
+                        path.oblige('post/_fromlist-raw-flag', 'post', a[-1].t == flags['raw'])
+                    path.oblige('post/lattice-stored', 'post', BoolVal('lattice' in val.fields))
+            return env, {'globals': g, 'closed_form': {}}, finish
+        return bits.axioms(), harness
+    return make
+
+
+register(Unit('contexts.fromdict', 'concepts/contexts.py', 'Data.fromdict', _fromdict_unit(),
+              assumptions=['well-typed dict: values are sized sequences of hashables; `lattice` is absent or a list (a literal None value is not modelled)',
+                           'contract of Context.__init__ (unit contexts.__init__) at the call cls(objects, properties, bools)',
+                           'builtins: all(), isinstance, set (cardinality = length iff no repeats), issubset, range, tuple, map (lazy, per element)',
+                           'contract of Lattice._fromlist is assumed here (C11: bounded)'],
+              linkage=[('concepts.Context.fromdict', None)], max_paths=3000))
